@@ -106,6 +106,8 @@ type respScript struct {
 	Hdr    map[string]string
 	Body   []byte
 	Delay  time.Duration
+	Abort  bool // close the connection without a response (transport error at the client)
+	Raw    []byte // with Abort: bytes written before the connection is closed (e.g. a truncated response)
 }
 
 type httpTarget struct {
@@ -139,6 +141,17 @@ func (t *httpTarget) ServeHTTP(w http.ResponseWriter, req *http.Request) {
 	}
 	if rs.Delay > 0 {
 		time.Sleep(rs.Delay)
+	}
+	if rs.Abort {
+		if hj, ok := w.(http.Hijacker); ok {
+			if c, _, err := hj.Hijack(); err == nil {
+				if len(rs.Raw) > 0 {
+					c.Write(rs.Raw)
+				}
+				c.Close()
+				return
+			}
+		}
 	}
 	for k, v := range rs.Hdr {
 		w.Header().Set(k, v)
